@@ -109,7 +109,9 @@ CHECK = {
                     "conc phases and the join burst are concurrent, observed at sync points",
                     "fault plans: one fault kind per attempt, the forwarded call's own retry loop on the leader is healthy; one partition shape (the leader alone, "
                     "call issued at the leader, healed once the others elected); no SIGKILL of the leader",
-                    "C17_conc_full (what the concurrent model admits meets the clauses) is stated, not proved: validated by suite conc",
+                    "C17_conc_full (what the concurrent model admits meets the clauses) is PROVED for the sync-point clauses agree / ack_in_all / pinset_agree "
+                    "(conc_allowed_membership_holds, every concurrent case); pinset_kept and the per-call clauses add_present_noop / rm_absent_noop / "
+                    "last_peer_kept of concurrent phases are validated by suite conc only",
                     "steps are issued only while a quorum of voters is running (otherwise the harness reports the script inconclusive)",
                     "the Raft data folder is observed after Clean: no raft.db, no snapshot; rotated copies are counted next to it",
                     "departure theorems on today's code (departure_cleans_today: Shutdown consults consensus.Peers, /repo 3277283) exclude only histories "
@@ -129,7 +131,10 @@ META = {
             "outcome the model allows satisfies every clause of the property written from its text. Failure arms: the retry loops with the trace of their attempts "
             "(error <-> no attempt seen to succeed; acknowledged -> committed, the log untouched or one entry longer; a failed call without a lost reply changes nothing; "
             "a retried AddPeer whose first attempt committed with its answer lost is acknowledged and adds once), fault_allowed_holds for every fault plan, "
-            "interleaved_log_agree for any interleaving of configuration and pin entries, join_allowed_holds for a joiner during a burst of pins. "
+            "interleaved_log_agree for any interleaving of configuration and pin entries, concurrent phases (cLogs_inv: an invariant principle through every order "
+            "`perms` tries and `dedupLogs`; conc_phase_acked_change_lands: in ANY order of a phase with ANY admitted outcomes a peer named only by acknowledged "
+            "adds/rms is in/out of the configuration; conc_sure_peers_in_every_log over whole histories; conc_allowed_membership_holds: every observation "
+            "the concurrent model admits meets agree, ack_in_all and pinset_agree), join_allowed_holds for a joiner during a burst of pins. "
             "Departure (round 8): every place of cluster.go that starts Cluster.Shutdown is regenerated as a structure (function, enclosing conditions, "
             "whether `c.removed = true` dominates it) and interpreted by a one-peer state machine over histories of removals by others, self-removals, "
             "watchPeers rounds, operator stops and writes: for ANY safe site list (today's is, by decide) a stopped non-member holds no consensus data "
